@@ -684,11 +684,11 @@ def correspondence(ctx):
             it = iter(got)
             if not all(any(g == e for g in it) for e in exp):
                 ctx.violation("a well-formed route is lost when junk lines are interleaved",
-                              {"tool": tool, "format": fmt, "text_hex": hx(text)[:8000]})
+                              {"kind": "subseq", "tool": tool, "format": fmt, "text_hex": hx(text), "want_in_order": [list(e) for e in exp]})
         return im
 
     fmts = [("ip", "ip"), ("netstat", "netstat-linux"), ("netstat", "netstat-bsd")]
-    ntab = 60 if quick else 5000
+    ntab = 60 if quick else 10000
     for k in range(ntab):
         tool, fmt = fmts[k % 3]
         n = rng.choice([0, 1, 2, 3, 10, 50, rng.randint(0, 200)])
@@ -852,6 +852,14 @@ def replay(ctx, rp):
         got = impl_lr(r["tool"], text)
         print("_list_routes(%s) on %r -> %s" % (r["tool"], text[:200], got[:200]))
         return got.startswith("CRASH")
+    if r.get("kind") == "subseq":
+        text = bytes.fromhex(r["text_hex"])
+        got = impl_lr(r["tool"], text)
+        items = [x.rsplit("/", 1) for x in got[3:].split(",")] if got.startswith("OK ") and len(got) > 3 else []
+        it = iter([[a, int(b)] for a, b in items])
+        ok = all(any(g == e for g in it) for e in r["want_in_order"])
+        print("_list_routes(%s): %d routes, expected well-formed ones present in order: %s" % (r["tool"], len(items), ok))
+        return not ok
     if "index" in r and r.get("text_hex"):
         text = bytes.fromhex(r["text_hex"])
         got = impl_lr(r["tool"], text)
